@@ -40,6 +40,8 @@ pub struct Stats {
     pub samples: Vec<Value>,
     pub excluded: BTreeMap<String, u64>,
     pub known_hits: BTreeMap<String, u64>,
+    /// results of deterministic extras (complexity ratios, family outcomes)
+    pub extra_results: Vec<Value>,
     /// when set (during shrinking / replay) nothing is counted
     pub frozen: bool,
 }
@@ -106,6 +108,7 @@ impl Stats {
                 self.samples.push(s);
             }
         }
+        self.extra_results.extend(o.extra_results);
     }
 }
 
@@ -440,6 +443,9 @@ fn write_evidence(ctx: &Ctx, prop: &dyn Prop, st: &Stats, wall: f64, violations:
     cov.insert("excluded_by_construction".into(), json!(st.excluded));
     cov.insert("known_finding_hits".into(), json!(st.known_hits));
     cov.insert("exhaustive".into(), json!(false));
+    if !st.extra_results.is_empty() {
+        cov.insert("extra_results".into(), json!(st.extra_results));
+    }
     if !notes.is_empty() {
         cov.insert("notes".into(), json!(notes));
     }
